@@ -78,6 +78,10 @@ SCOPES = {
             ("multi", _scope(Mode="dist", NGroups={1, 2}, Caps={1}, Socs={0, 3}, BatBnds={(-6, -2, 0, 4), (-4, 0, 3, 6), (-6, -3, 2, 6)},
                              InvBnds={(-4, -2, 0, 2), (-2, 0, 2, 4), (-4, -1, 1, 4)}, Shapes1={(1, 2), (2, 1), (2, 2), (1, 3)}, ShapesR=ONE,
                              Mags={1, 3, 4, 5, 7, 11}, Exps={1})),
+            # two groups that both sit behind two inverters (the split of either may leave something unplaced)
+            ("multi2", _scope(Mode="dist", NGroups={2}, Caps={1}, Socs={2}, BatBnds={(-6, -2, 0, 4), (-4, 0, 3, 6)},
+                              InvBnds={(-4, -2, 0, 2), (-2, 0, 2, 4), (-4, -1, 1, 4)}, Shapes1={(1, 2)}, ShapesR={(1, 2)},
+                              Mags={1, 3, 4, 5, 7, 9, 11}, Exps={1})),
             # 3-4 groups on a finer SoC grid with exclusion bounds: a deficit larger than any single
             # surplus is covered from several donors (partial-cover branch of the deficit loop)
             ("cover3", _scope(Mode="dist", NGroups={3}, Caps={1}, Socs={1, 8}, SocLo=0, SocHi=9,
@@ -491,8 +495,9 @@ def _worker(chunk, out_path):
     meta: dict = {}
     with open(out_path, "w") as f:
         for cid, kind, name, c in _iter_cases(chunk[0], chunk[-1] + 1):
-            mt = meta.setdefault(name, dict(n=0, az=0, devs={}, partial=0, multi=0))
+            mt = meta.setdefault(name, dict(n=0, az=0, devs={}, partial=0, multi=0, early=0))
             mt["n"] += 1
+            mt["early"] += 1 if c.pop("el", False) else 0
             mt["az"] += 1 if c.pop("az", False) else 0
             npart = c.pop("np", 0) or 0
             mt["partial"] += 1 if npart >= 1 else 0
@@ -575,7 +580,8 @@ def _run_val(rep: Report, prop: str, work: Path, consts: dict) -> None:
     all_taken: dict = {}
     for p in shards:
         for name, mt in json.loads(Path(str(p) + ".meta").read_text()).items():
-            acc = meta.setdefault(name, dict(n=0, az=0, devs={}, partial=0, multi=0))
+            acc = meta.setdefault(name, dict(n=0, az=0, devs={}, partial=0, multi=0, early=0))
+            acc["early"] += mt.get("early", 0)
             acc["n"] += mt["n"]
             acc["az"] += mt["az"]
             acc["partial"] += mt.get("partial", 0)
@@ -583,7 +589,7 @@ def _run_val(rep: Report, prop: str, work: Path, consts: dict) -> None:
             for k, v in mt["devs"].items():
                 acc["devs"][k] = acc["devs"].get(k, 0) + v
     for (path, n, kind, name), mcrec in zip(_STAGEFILES, [m for m in rep.mc if m["run"] in {s[3] for s in _STAGEFILES}]):
-        mt = meta.get(name, dict(n=0, az=0, devs={}, partial=0, multi=0))
+        mt = meta.get(name, dict(n=0, az=0, devs={}, partial=0, multi=0, early=0))
         if mt["n"] != n:
             raise MachineryError(f"stage {name}: {n} cases emitted, {mt['n']} replayed")
         if kind == "dist":
@@ -607,6 +613,8 @@ def _run_val(rep: Report, prop: str, work: Path, consts: dict) -> None:
     # inputs on which the deficit loop of the transcription took the partial-cover branch (once / from >= 2 donors)
     rep.extra["exercised"]["cover_partial_branch"] = sum(mt["partial"] for mt in meta.values())
     rep.extra["exercised"]["cover_multi_donor"] = sum(mt["multi"] for mt in meta.values())
+    # inputs where a multi-inverter set that is not the last of the distribution left power unplaced
+    rep.extra["exercised"]["split_unplaced_not_last_set"] = sum(mt.get("early", 0) for mt in meta.values())
     rep.extra["run_wall_s"] = run_s
     rep.extra["val_wall_s"] = st["wall_s"]
     # full records only for the first few failures of each (clause, deviations) class
@@ -663,7 +671,7 @@ def _run_val(rep: Report, prop: str, work: Path, consts: dict) -> None:
 # antecedents that must have been exercised at least once (vacuity guard), per property
 NEEDED = {
     "C01": ["nonzero_setpoint", "remainder", "supply", "beyond_incl", "multi_inverter", "multi_battery", "manager",
-            "cover_partial_branch", "cover_multi_donor", "third_inverter_powered"],
+            "cover_partial_branch", "cover_multi_donor", "third_inverter_powered", "split_unplaced_not_last_set"],
     "C02": ["nonzero_setpoint", "noheadroom", "allnoheadroom", "at_excl", "at_incl", "multi_inverter", "multi_battery",
             "cover_partial_branch", "cover_multi_donor", "third_inverter_powered", "not_advertised", "inside_enforced_zone", "beyond_incl_noadjust",
             "rejected_runs"],
